@@ -358,6 +358,7 @@ class CallMixin:
                 raise Unsupported(f"{self.where(node)}: call of {key}, which has no contract in the sidecar and no source")
         if self.inline_depth >= 6:
             raise Unsupported(f"{self.where(node)}: inlining depth exceeded at {key}")
+        self.check_decorators(key, fn)
         self.inlined.append((self.cur_fn, key))
         st.ghost = dict(st.ghost, unannotated_loop=True)     # code without a contract: a failed proof past this point must replay to count
         a = fn.args
@@ -523,6 +524,9 @@ class CallMixin:
             self._spec_mod = saved_spec_mod
 
     def _apply_contract(self, c, args, kwargs, st, node):
+        q0 = c.qual.split("#")[0].split("@")[0]
+        if q0 in self.repo.qual and c.fn_override is None:
+            self.check_decorators(q0, self.repo.qual[q0])       # a contract on the body does not describe a call that goes through a wrapper
         env = self.bind_params(c, args, kwargs, st, node)
         self.calls_seen.append((self.cur_fn, c.qual))
         st.log.append(("call-begin", c.qual, dict(env), None, getattr(node, "lineno", 0)))
